@@ -34,6 +34,20 @@ theorem toCrlf_toLf_iff (c : Bytes) (hn : hasNul c = false) (hc : toCrlf c = c) 
   rw [toLf_of_noNul hn, toCrlf_of_noNul (by rw [hasNul_replCrlf]; exact hn)]
   exact subUnixNl_replCrlf_iff false c ((subUnixNl_fix_iff false c).1 hc)
 
+/-- **The CRLF reader always produces canonical content** (so whatever a
+commit stores under a CRLF-in-repo setting is canonical). -/
+theorem toCrlf_canonical (d : Bytes) : toCrlf (toCrlf d) = toCrlf d := by
+  by_cases hn : hasNul d = true
+  · simp [toCrlf, hn]
+  · have hn' : hasNul d = false := by simpa using hn
+    rw [toCrlf_of_noNul hn', toCrlf_of_noNul (by rw [hasNul_subUnixNl]; exact hn')]
+    exact (subUnixNl_fix_iff false _).2 (allCrLf_subUnixNl false d)
+
+/-- The LF reader does not: a working file `"\r\r\n"` is stored as `"\r\n"`,
+which the same reader would change again (outside C45, which speaks about
+canonical content only; reported as an observation). -/
+theorem toLf_not_idempotent_witness : toLf (toLf [13, 13, 10]) ≠ toLf [13, 13, 10] := by decide
+
 /-! ### every setting -/
 
 /-- **Exact characterisation of the round trip.**  For every entry of the
@@ -104,6 +118,68 @@ theorem crlf_repo_witness :
         writeOut stack c = [97, 13, 10] ∧ readIn stack (writeOut stack c) = [97, 13, 10] ∧
         readIn stack (writeOut stack c) ≠ c := by
   decide
+
+/-! ### what the settings mean for the working tree -/
+
+/-- the writer of the stack, if it has exactly one filter with a writer -/
+def writerOf : List Filter → Option Conv
+  | [f] => f.writer
+  | _ => none
+
+/-- **Settings that write CRLF** (`crlf`, `crlf-with-crlf-in-repo`, and the
+`native` ones on win32): whatever text is checked out, every `\n` in the
+working tree follows a `\r`. -/
+theorem crlf_settings_write_crlf (win : Bool) (name : String) (stack : List Filter)
+    (h : (name, stack) ∈ eolMap win)
+    (hname : name = "crlf" ∨ name = "crlf-with-crlf-in-repo" ∨
+      (win = true ∧ (name = "native" ∨ name = "native-with-crlf-in-repo")))
+    (c : Bytes) (hn : hasNul c = false) :
+    writerOf stack = some .toCrlf ∧ allCrLf false (writeOut stack c) = true := by
+  have key : allCrLf false (toCrlf c) = true := by
+    rw [toCrlf_of_noNul hn]; exact allCrLf_subUnixNl false c
+  simp only [eolMap, List.mem_cons, Prod.mk.injEq, List.mem_nil_iff, or_false] at h
+  rcases h with h | h | h | h | h | h | h <;> obtain ⟨rfl, rfl⟩ := h <;> cases win <;>
+    simp_all [writerOf, writeOut, outputBytes, Conv.apply, Conv.fn, nativeOutput]
+
+/-- **`*-with-crlf-in-repo` settings store CRLF**: whatever text is in the
+working tree, every `\n` of what is read (and committed) follows a `\r`. -/
+theorem crlf_repo_settings_store_crlf (win : Bool) (name : String) (stack : List Filter)
+    (h : (name, stack) ∈ eolMap win)
+    (hname : name = "native-with-crlf-in-repo" ∨ name = "lf-with-crlf-in-repo" ∨
+      name = "crlf-with-crlf-in-repo")
+    (d : Bytes) (hn : hasNul d = false) :
+    allCrLf false (readIn stack d) = true := by
+  have key : allCrLf false (toCrlf d) = true := by
+    rw [toCrlf_of_noNul hn]; exact allCrLf_subUnixNl false d
+  simp only [eolMap, List.mem_cons, Prod.mk.injEq, List.mem_nil_iff, or_false] at h
+  rcases h with h | h | h | h | h | h | h <;> obtain ⟨rfl, rfl⟩ := h <;> cases win <;>
+    simp_all [readIn, inputFile, Conv.apply, Conv.fn]
+
+/-- **Settings that write LF** (`lf`, `lf-with-crlf-in-repo`, and the `native`
+ones off win32): a canonical text without `\r\r\n` is checked out without any
+`\r\n`. -/
+theorem lf_settings_write_lf (win : Bool) (name : String) (stack : List Filter)
+    (h : (name, stack) ∈ eolMap win)
+    (hname : name = "lf" ∨ name = "lf-with-crlf-in-repo" ∨
+      (win = false ∧ (name = "native" ∨ name = "native-with-crlf-in-repo")))
+    (c : Bytes) (hn : hasNul c = false) (hc : readIn stack c = c) (hx : noCrCrLf false c = true) :
+    writerOf stack = some .toLf ∧ noCrLf false (writeOut stack c) = true := by
+  have lfrepo : toLf c = c → noCrLf false (toLf c) = true := by
+    intro e; rw [e]; rw [toLf_of_noNul hn] at e; exact (replCrlf_fix_iff c).1 e
+  have crlfrepo : toCrlf c = c → noCrLf false (toLf c) = true := by
+    intro e
+    rw [toCrlf_of_noNul hn] at e
+    rw [toLf_of_noNul hn]
+    exact noCrLf_replCrlf false c ((subUnixNl_fix_iff false c).1 e) hx (by simp)
+  simp only [eolMap, List.mem_cons, Prod.mk.injEq, List.mem_nil_iff, or_false] at h
+  rcases h with h | h | h | h | h | h | h <;> obtain ⟨rfl, rfl⟩ := h <;> cases win <;>
+    simp_all [writerOf, writeOut, readIn, inputFile, outputBytes, Conv.apply, Conv.fn, nativeOutput]
+
+/-- non-vacuity for `lf_settings_write_lf` -/
+example : ("lf-with-crlf-in-repo", [⟨some .toCrlf, some .toLf⟩]) ∈ eolMap true
+    ∧ readIn [⟨some .toCrlf, some .toLf⟩] [97, 13, 10, 13] = [97, 13, 10, 13]
+    ∧ noCrCrLf false [97, 13, 10, 13] = true
+    ∧ writeOut [⟨some .toCrlf, some .toLf⟩] [97, 13, 10, 13] = [97, 10, 13] := by decide
 
 /-- **Binary content is never converted**, by any setting, in either
 direction, whatever the chunking. -/
